@@ -1,22 +1,23 @@
 #!/bin/bash
-# usage: confirm_seed.sh <Cxx> [suite]
-# Confirms /verif/seeded/<Cxx>/ (already collected by collect_seed.sh) in the scratch worktree /tmp/confirm at /repo's HEAD:
+# usage: [CONFIRM_DIR=<scratch worktree>] confirm_seed.sh <seed-id> [suite]
+# Confirms /verif/seeded/<Cxx>/ (already collected by collect_seed.sh) in the scratch worktree $CD at /repo's HEAD:
 # demonstration without and with the change, then (if "suite") the pinned suite with the change. Log: /verif/seeded/<Cxx>/confirm.log
 set -u
+CD=${CONFIRM_DIR:-/tmp/confirm}
 id=$1; suite=${2:-}
 dst=/verif/seeded/$id
 log=$dst/confirm.log
 echo "== confirm $id $(date)" > $log
-if [ ! -d /tmp/confirm ]; then git -C /repo worktree add -q --detach /tmp/confirm HEAD >> $log 2>&1; fi
-cd /tmp/confirm && git checkout -q --detach $(git -C /repo rev-parse HEAD) && git checkout -- . && git clean -fdq -e target
+if [ ! -d $CD ]; then git -C /repo worktree add -q --detach $CD HEAD >> $log 2>&1; fi
+cd $CD && git checkout -q --detach $(git -C /repo rev-parse HEAD) && git checkout -- . && git clean -fdq -e target
 echo "base $(git rev-parse --short HEAD) (seed was written on $(cut -c1-7 $dst/base_commit.txt 2>/dev/null))" >> $log
 if ! git apply --check $dst/patch.diff 2>>$log; then echo "PATCH DOES NOT APPLY" >> $log; exit 1; fi
-export CARGO_TARGET_DIR=/tmp/confirm/target
+export CARGO_TARGET_DIR=$CD/target
 run_demo() {
-  if [ -f $dst/SEED_DEMO.js ]; then cp $dst/SEED_DEMO.js /tmp/confirm/SEED_DEMO.js; timeout 7200 cargo run --offline -q -p boa_cli -- SEED_DEMO.js 2>&1 | tail -40; fi
-  if [ -d $dst/extra ]; then cp -r $dst/extra/* /tmp/confirm/; fi
-  if [ -f $dst/SEED_DEMO.rs ] && [ ! -d $dst/extra ]; then mkdir -p /tmp/confirm/core/engine/tests; cp $dst/SEED_DEMO.rs /tmp/confirm/core/engine/tests/seed_demo.rs; fi
-  for t in $(cd /tmp/confirm && git ls-files --others --exclude-standard | grep 'tests/.*\.rs$'); do
+  if [ -f $dst/SEED_DEMO.js ]; then cp $dst/SEED_DEMO.js $CD/SEED_DEMO.js; timeout 7200 cargo run --offline -q -p boa_cli -- SEED_DEMO.js 2>&1 | tail -40; fi
+  if [ -d $dst/extra ]; then cp -r $dst/extra/* $CD/; fi
+  if [ -f $dst/SEED_DEMO.rs ] && [ ! -d $dst/extra ]; then mkdir -p $CD/core/engine/tests; cp $dst/SEED_DEMO.rs $CD/core/engine/tests/seed_demo.rs; fi
+  for t in $(cd $CD && git ls-files --others --exclude-standard | grep 'tests/.*\.rs$'); do
      crate=$(echo $t | sed -E 's#core/([a-z_]+)/tests/.*#boa_\1#'); name=$(basename $t .rs)
      echo "-- cargo test -p $crate --test $name"; timeout 7200 cargo test --offline -p $crate --test $name 2>&1 | grep -vE '^\s*(Compiling|Finished|Running)' | tail -25
   done
@@ -24,7 +25,7 @@ run_demo() {
 echo "== demo WITHOUT the change" >> $log; run_demo >> $log 2>&1
 git apply $dst/patch.diff
 echo "== demo WITH the change" >> $log; run_demo >> $log 2>&1
-rm -f /tmp/confirm/SEED_DEMO.js; for t in $(git ls-files --others --exclude-standard | grep 'tests/.*\.rs$'); do rm -f $t; done
+rm -f $CD/SEED_DEMO.js; for t in $(git ls-files --others --exclude-standard | grep 'tests/.*\.rs$'); do rm -f $t; done
 if [ "$suite" = suite ]; then
   echo "== pinned suite WITH the change (nextest profile pb)" >> $log
   timeout 14400 cargo nextest run --workspace --no-fail-fast --tool-config-file pb:/w/lib/nextest.toml --profile pb --test-threads 8 --offline 2>&1 | grep -E "Summary|FAIL|TIMEOUT|SIGABRT|SIGSEGV|error" | sort | uniq -c | tail -15 >> $log
